@@ -15,8 +15,8 @@ CONSTANTS Cfgs,      \* configurations (see StubOps for the record)
           Outcomes,  \* upstream outcomes available: subset of {"data", "nodata", "nx", "fail"}
           Rules
 
-VARIABLES cfg, st, cands, idx, stage, got, lastErrs, asked, result
-vars == <<cfg, st, cands, idx, stage, got, lastErrs, asked, result>>
+VARIABLES cfg, st, cands, idx, stage, got, fails, asked, result
+vars == <<cfg, st, cands, idx, stage, got, fails, asked, result>>
 
 AllTypes == {"A", "AAAA", "TXT"}
 Nothing == [t \in AllTypes |-> NotLocal]
@@ -24,7 +24,7 @@ NoResult == [kind |-> "none", groups |-> <<>>, errs |-> {}]
 
 Init ==
     /\ cfg \in Cfgs
-    /\ st = "start" /\ cands = <<>> /\ idx = 0 /\ stage = 1 /\ got = Nothing /\ lastErrs = {}
+    /\ st = "start" /\ cands = <<>> /\ idx = 0 /\ stage = 1 /\ got = Nothing /\ fails = <<>>
     /\ asked = <<>> /\ result = NoResult
 
 Ty == TypesOf(cfg)
@@ -40,27 +40,27 @@ AnswerLiteral ==
     /\ st = "start" /\ IsLiteral(cfg)
     /\ result' = [kind |-> "ok", groups |-> <<LiteralGroup(cfg)>>, errs |-> {}]
     /\ st' = "done"
-    /\ UNCHANGED <<cfg, cands, idx, stage, got, lastErrs, asked>>
+    /\ UNCHANGED <<cfg, cands, idx, stage, got, fails, asked>>
 
 \* [ndots] [fqdn] [domain] the list of names to try
 BuildCandidates ==
     /\ st = "start" /\ ~IsLiteral(cfg)
     /\ cands' = CandidatesOf(cfg, Rules)
     /\ st' = "pick"
-    /\ UNCHANGED <<cfg, idx, stage, got, lastErrs, asked, result>>
+    /\ UNCHANGED <<cfg, idx, stage, got, fails, asked, result>>
 
 \* [next] the next name of the list
 NextCandidate ==
     /\ st = "pick" /\ idx < Len(cands)
     /\ idx' = idx + 1 /\ stage' = 1 /\ got' = Nothing /\ st' = "work"
-    /\ UNCHANGED <<cfg, cands, lastErrs, asked, result>>
+    /\ UNCHANGED <<cfg, cands, fails, asked, result>>
 
 \* [hosts] [6761] answered from the hosts table / as a special-use name: no question is sent
 AnswerLocally ==
     \E t \in AllTypes :
         /\ Open(t) /\ Local(t).src # "none"
         /\ got' = [got EXCEPT ![t] = Local(t)]
-        /\ UNCHANGED <<cfg, st, cands, idx, stage, lastErrs, asked, result>>
+        /\ UNCHANGED <<cfg, st, cands, idx, stage, fails, asked, result>>
 
 \* one question to the configured servers and its outcome
 AskUpstream ==
@@ -68,14 +68,14 @@ AskUpstream ==
         /\ Open(t) /\ Local(t).src = "none"
         /\ got' = [got EXCEPT ![t] = [src |-> "dns", o |-> o]]
         /\ asked' = Append(asked, [n |-> Cur, t |-> t, o |-> o])
-        /\ UNCHANGED <<cfg, st, cands, idx, stage, lastErrs, result>>
+        /\ UNCHANGED <<cfg, st, cands, idx, stage, fails, result>>
 
 \* [strat] "if that fails, query for" the other family
 FallbackFamily ==
     /\ st = "work" /\ Mode = "then" /\ stage = 1
     /\ got[Ty[1]] # NotLocal /\ got[Ty[1]].o # "data"
     /\ stage' = 2
-    /\ UNCHANGED <<cfg, st, cands, idx, got, lastErrs, asked, result>>
+    /\ UNCHANGED <<cfg, st, cands, idx, got, fails, asked, result>>
 
 Answered ==
     IF Mode = "then" THEN (stage = 1 /\ got[Ty[1]].o = "data") \/ (stage = 2 /\ got[Ty[2]] # NotLocal)
@@ -90,21 +90,23 @@ CandidateSucceeds ==
     /\ st = "work" /\ Answered /\ GroupsNow # <<>>
     /\ result' = [kind |-> "ok", groups |-> GroupsNow, errs |-> {}]
     /\ st' = "done"
-    /\ UNCHANGED <<cfg, cands, idx, stage, got, lastErrs, asked>>
+    /\ UNCHANGED <<cfg, cands, idx, stage, got, fails, asked>>
 
 \* [next] "upon each failure, the next will be attempted"
 CandidateFails ==
     /\ st = "work" /\ Answered /\ GroupsNow = <<>>
-    /\ lastErrs' = ErrsNow
+    /\ fails' = Append(fails, ErrsNow)
     /\ st' = "pick"
     /\ UNCHANGED <<cfg, cands, idx, stage, got, asked, result>>
 
-\* [next] names exhausted: "the last error we saw"
+\* [next] names exhausted: "the last error we saw" -- of the last name of the list; where the list
+\* as configured repeats an earlier name at its end, of that name too (it may have been tried again)
+LastRepeated == Pos(cands, LastWithRepeats(cfg, Rules))
 GiveUp ==
     /\ st = "pick" /\ idx = Len(cands)
-    /\ result' = [kind |-> "err", groups |-> <<>>, errs |-> lastErrs]
+    /\ result' = [kind |-> "err", groups |-> <<>>, errs |-> fails[Len(cands)] \cup fails[LastRepeated]]
     /\ st' = "done"
-    /\ UNCHANGED <<cfg, cands, idx, stage, got, lastErrs, asked>>
+    /\ UNCHANGED <<cfg, cands, idx, stage, got, fails, asked>>
 
 Next ==
     \/ AnswerLiteral
@@ -156,9 +158,9 @@ X01_ResultAsPrescribed ==
 X01_ErrorOfLast ==
     (Done /\ result.kind = "err") =>
         /\ result.errs # {}
-        /\ LET last == cands[Len(cands)]
-               seen == {asked[j].o : j \in {k \in DOMAIN asked : asked[k].n = last}}
-               known == {LocalSrc(cfg, Strict, last, Len(cands), t).o : t \in SeqRange(Ty)}
+        /\ LET lasts == {cands[Len(cands)], LastWithRepeats(cfg, Strict)}
+               seen == {asked[j].o : j \in {k \in DOMAIN asked : asked[k].n \in lasts}}
+               known == {LocalSrc(cfg, Strict, c, Pos(cands, c), t).o : c \in lasts, t \in SeqRange(Ty)}
            IN result.errs \subseteq ((seen \cup known) \ {"none", "data"})
 
 \* every lookup ends
